@@ -70,7 +70,7 @@ func exerciseDiff(c *mon.Ctx, how string, d jd.Diff, docs []string) bool {
 		c.Event()
 		var err error
 		var P jd.JsonNode
-		pan := mon.Safe(func() {
+		pan, finished := mon.SafeBounded(func() {
 			var n jd.JsonNode
 			n, err = jd.ReadJsonString(x)
 			if err != nil {
@@ -81,7 +81,11 @@ func exerciseDiff(c *mon.Ctx, how string, d jd.Diff, docs []string) bool {
 				_ = P.Json()
 				_ = P.Yaml()
 			}
-		})
+		}, 20)
+		if !finished {
+			c.Violation("applying a successfully read "+how+" to a small document did not return within 20 s of CPU time (the call keeps spinning)", map[string]any{"document": x, "diff": ref.HunksString(Hunks(d))})
+			return false
+		}
 		if pan != "" {
 			c.Violation("panic while applying a successfully read "+how+" to a document", map[string]any{"document": x, "panic": pan})
 			return false
@@ -132,7 +136,7 @@ func mutateText(r *gen.RNG, s string) string {
 		case 3:
 			i := r.Intn(len(lines))
 			if len(lines[i]) > 0 {
-				lines[i] = string(gen.Pick(r, []byte("@^+- []x{")))+lines[i][1:]
+				lines[i] = string(gen.Pick(r, []byte("@^+- []x{"))) + lines[i][1:]
 			}
 		case 4:
 			i := r.Intn(len(lines))
